@@ -23,7 +23,7 @@ NUMIR = os.path.join(TOOLS, 'numir', 'target', 'debug', 'numir')
 if not os.path.exists(NUMIR) and os.path.exists('/verif/tools/numir/target/debug/numir'):
     NUMIR = '/verif/tools/numir/target/debug/numir'   # `vp run` snapshots hold committed files only
 NUSYN = os.path.join(TOOLS, 'nusyn', 'target', 'debug', 'nusyn')
-CACHE = os.path.join(VERIF, '.cache')
+CACHE = os.environ.get('VERIF_CACHE') or os.path.join(VERIF, '.cache')   # self-tests use their own cache directory
 
 
 def repo():
